@@ -765,6 +765,11 @@ func (fr *Frame) applyContract(fcx *FuncContract, f *ssa.Function, sig *types.Si
 		}
 		t, err := e.Bool(en.E)
 		if err != nil {
+			if strings.Contains(err.Error(), "unknown identifier") && f != nil {
+				// the clause speaks about a local of the callee: an obligation of the callee's
+				// body, not part of what callers may assume
+				continue
+			}
 			fr.bindingFailure(en, err)
 			continue
 		}
@@ -1379,6 +1384,37 @@ func hardcoded(fr *Frame, f *ssa.Function, cc *ssa.CallCommon, site ssa.Instruct
 		}
 		c.assumed["encoding/json decoding writes only through its target pointer (decoded value arbitrary)"] = true
 		return []Term{fr.freshOfType("jsonerr", errT)}, true
+	case "sync/atomic.StoreInt32", "sync/atomic.SwapInt32", "sync/atomic.AddInt32":
+		// an unconditional atomic write to a word with a declared rely breaks the guarantee the
+		// rely of the other goroutines is built on
+		fa, isField := cc.Args[0].(*ssa.FieldAddr)
+		if !isField {
+			return nil, false
+		}
+		var rely *AtomicRely
+		if st, ok := fa.X.Type().Underlying().(*types.Pointer); ok {
+			if n, ok := st.Elem().(*types.Named); ok && n.Obj().Pkg() != nil {
+				sst, _ := structOf(st.Elem())
+				rely = c.P.Specs.Atomics[n.Obj().Pkg().Path()+"."+n.Obj().Name()+"."+sst.Field(fa.Field).Name()]
+			}
+		}
+		if rely == nil {
+			return nil, false
+		}
+		l := fr.locOf(fa)
+		cur := fr.load(l)
+		c.oblige(&Obligation{Name: fr.oblName("atomic", fmt.Sprintf("%s/guarantee:changes-only-from-%d", f.Name(), rely.From)), Kind: "guarantee",
+			Label: "atomic-guarantee", Props: fr.topFrame().propsOfContract(), PC: fr.pc, Goal: fmt.Sprintf("(= %s %d)", cur, rely.From),
+			Where: c.P.pos(site.Pos()) + " (" + rely.Where + ")", Src: fmt.Sprintf("an unconditional atomic write happens only while the word holds %d", rely.From)})
+		nv := fr.freshOfType("atomicword", l.ty)
+		if key == "sync/atomic.StoreInt32" {
+			nv = args[1]
+		}
+		fr.store(l, nv)
+		if key == "sync/atomic.StoreInt32" {
+			return nil, true
+		}
+		return []Term{fr.freshOfType("atomicret", l.ty)}, true
 	case "sync/atomic.LoadInt32", "sync/atomic.CompareAndSwapInt32":
 		// other goroutines may have written the word since this goroutine last looked at it;
 		// a declared rely (`atomic T.f changes-only-from n`) limits that interference, and every
